@@ -981,3 +981,45 @@ def r_noshift(f):
     if bad:
         R.fail(b.ident, "exit-without-shift", "%s can return without having moved any element while (col_mid, row_mid) may be %s: a pending column or row shift is dropped" % (b.ident, sorted({(x[1], x[2]) for x in bad})), b.where())
     return R, 1
+
+
+def r_rotate(f):
+    """R-ROTATE: a rotation of the buffer's tail slice is one half of a two-step move, and its direction is fixed by the other
+    half: `rotate_left(k)` brings the *front* block to the end, so it belongs with a later removal of the tail (drain /
+    truncate) - removing a line; `rotate_right(k)` brings the *end* block to the front, so it belongs with an earlier append
+    (extend / push / resize / growing set_len) - inserting a line.  The opposite pairing moves the wrong block."""
+    R = Result("R-ROTATE")
+    n = 0
+    GROW = ("extend", "extend_from_slice", "push", "resize", "resize_with", "append", "insert", "splice")
+    SHRINK = ("drain", "truncate", "pop", "split_off")
+    for b in f.fn_bodies:
+        fl = b.file.replace("\\", "/")
+        if not fl.endswith("src/toodee.rs") or b.kind == "Closure":
+            continue
+        rots = [(bi, t, fn) for bi, t, fn in b.calls() if fn and fn["path"] in ("core::slice::<impl [T]>::rotate_left", "core::slice::<impl [T]>::rotate_right")]
+        if not rots:
+            continue
+        grows = [bi for bi, t, fn in b.calls() if fn and fn["name"] in GROW and ("alloc::vec::Vec" in fn["path"] or norm_ty(fn.get("self_ty") or "").startswith("alloc::vec::Vec<"))]
+        shrinks = [bi for bi, t, fn in b.calls() if fn and fn["name"] in SHRINK and "alloc::vec::Vec" in fn["path"]]
+        d = Dfx(b)
+        for bi, t, fn in b.calls():
+            # a growing set_len(len + k): cells were written behind the old end
+            if fn and fn["name"] == "set_len" and "alloc::vec::Vec" in fn["path"] and len(t["args"]) == 2:
+                e = strip(d.expr(t["args"][1]))
+                if e[0] == "bin" and e[1].startswith("Add"):
+                    grows.append(bi)
+        for bi, t, fn in rots:
+            n += 1
+            after = set(b.reachable(bi)) - {bi}
+            grew_before = any(bi in b.reachable(gb) and gb != bi for gb in grows)
+            shrinks_after = any(sb in after for sb in shrinks)
+            if fn["name"] == "rotate_left":
+                ok = shrinks_after or not grew_before
+                want = "a later removal of the tail (it moves the front block to the end)"
+            else:
+                ok = grew_before or not shrinks_after
+                want = "an earlier append (it moves the end block to the front)"
+            R.inst(b.ident, "%s is paired with %s" % (fn["name"], want), ok)
+            if not ok:
+                R.fail(b.ident, "direction:%s" % fn["name"], "%s uses %s where the surrounding code (%s) needs the other direction: %s belongs with %s" % (b.ident, fn["name"], "cells appended before, nothing removed after" if fn["name"] == "rotate_left" else "tail removed after, nothing appended before", fn["name"], want), b.where(t["span"]))
+    return R, n
